@@ -88,7 +88,7 @@ ENTRIES_A = np.array(
 )
 ENTRIES_B = np.array([0.5, 1.2, 1.6, 2.0, 2.3, 2.35, 2.6, 2.8, 3.0, 3.1, 3.4, 3.7, 3.9, 4.3, 4.7, 5.1, 5.6, 1.8, 2.9, 3.3, 2.45, 3.05, 6.2, 4.05])
 EDGES_A = np.array([0.2, 1.0, 2.0, 3.5, 4.5, 6.0])  # unequal widths, positive (log x legal)
-EDGES_B = np.array([0.5, 2.0, 3.5, 5.0, 6.5])  # equal widths
+EDGES_B = np.array([0.45, 1.95, 3.45, 4.95, 6.45])  # equal widths
 
 UNC = {
     "xy": ["none", "y", "xy", "poisson", "ga+y"],
@@ -107,8 +107,9 @@ AXES = {
 
 def entries_for(role, v):
     base = ENTRIES_A if role == "A" else ENTRIES_B
-    # valuation dependent but order / bin membership preserving is not required: counts are recomputed
-    return np.round(base * (1.0 + 0.02 * v) + 0.01 * v, 6)
+    # valuation dependent; all entries stay strictly inside the bin range of their role (no under/overflow) and
+    # away from the bin edges; counts are recomputed by the reference
+    return np.round(base * (1.0 - 0.02 * v) + 0.03 * v, 6)
 
 
 def hist_counts(entries, edges):
